@@ -164,3 +164,60 @@ class PdbWorld:
                 unitcell_lengths=self.L if have_cell else None, unitcell_angles=self.A if have_cell else None, _have_unitcell=have_cell, _lenient=True)
         t._check_valid_unitcell = lambda: None
         return t
+
+
+def save_and_load_store(ctx, key, world, have_cell=True):
+    """save_hdf5 / save_netcdf followed by load_hdf5 / load_netcdf: the file class is a model object on growing arrays (sa/h5model.py, sa/stores.py) whose
+    write / read / read_as_traj / seek are evaluated from the class's source.  -> the Trajectory object the loader builds"""
+    from . import h5model as H, stores as S
+    rel, cls = F.rel_cls(key)
+    mod = ctx.py.mod(rel)
+    methods = {q.split(".", 1)[1]: f for q, f in mod.functions.items() if q.startswith(cls + ".") and q.count(".") == 1}
+    root = W.new_root()
+    made = []
+    traj = model_trajectory(world, have_cell)
+    state = {}
+    file_unit = "nanometers" if key == "h5" else "angstroms"
+
+    def mkfile(ev, call):
+        a = [ev.ex(x) for x in call.args]
+        kw = {k.arg: ev.ex(k.value) for k in call.keywords}
+        mode = a[1] if len(a) > 1 else kw.get("mode", "r")
+        if key == "h5":
+            if mode == "w":
+                me = H.h5_file(ctx, "w", n_atoms=world.n_atoms)
+                state["nodes"] = me._nodes
+            else:
+                me = H.h5_file(ctx, "r", n_atoms=world.n_atoms, nodes=state["nodes"], first_write=False)
+                me.mode = "r"
+                me.topology = state.get("top")      # the topology node itself: C04 (HDF5 JSON round trip)
+        else:
+            if mode == "w":
+                me = S.netcdf_file(ctx, "w")
+                state["vars"] = me._handle.variables
+            else:
+                me = S.netcdf_file(ctx, "r", n_atoms=world.n_atoms, variables=state["vars"])
+        me._methods = {k: v for k, v in methods.items() if k in ("write", "read", "read_as_traj", "seek", "tell")}
+        me.__enter__ = lambda: me
+        me.distance_unit = file_unit
+        state["last"] = me
+        return me
+    disk = Disk()
+
+    def mk(relx):
+        ts = evaluator(ctx, relx, disk, root, made)
+        ts.models = dict(ts.models, **H._models())
+        ts.models["in_units_of"] = in_units_of
+        ts.models[cls] = mkfile
+        ts.module_env = dict(ts.module_env, **{cls: Obj(distance_unit=file_unit)})
+        return ts
+    name = {"h5": "hdf5", "nc": "netcdf"}[key]
+    mk(TRAJ).run_fn(ctx.py.func(TRAJ, "Trajectory.save_" + name), self=traj, filename="FILE")
+    if key == "h5":
+        state["top"] = getattr(state["last"], "topology", None)
+    given = {"filename": "FILE"}
+    loader = ctx.py.func(rel, "load_" + name)
+    if "top" in [a_.arg for a_ in loader.args.args + loader.args.kwonlyargs]:
+        given["top"] = world.top
+    ret = mk(rel).run_fn(loader, **given)
+    return ret if isinstance(ret, Obj) else (made[-1] if made else None)
